@@ -255,6 +255,8 @@ def run(res, tier):
     partial_calls_exclusive(res)
     # clause 2
     block_size_positive(facts, res)
+    res.rule("C08.5 the block size is a bound, not a size: in the tree's constructor / rebuild and the sorter's split the raw block size never sizes an allocation and never enters a sum or product (it may be compared, and clamped with std::min against a quantity of the data)")
+    res.floor("C08.5", block_size_is_a_bound(facts, res), 4, "allocations / arithmetic sites")
     res.rule("C08.4 which cells interact does not depend on where the group boundaries fall: a source cell's position in a group comes from that group's own lookup, or from a hole-free shortcut tested on that same group (rule C02.5 on the group wrapper)")
     import c02
     sub = tbf.Result("C02")
@@ -264,6 +266,60 @@ def run(res, tier):
     for v in sub.violations:
         res.violation("C08.4.lookup-in-own-group", v["file"], v["function"], v["key"], v["line"], v["msg"] + " - whether that happens depends on the block size and the grouping mode")
     res.floor("C08.4", n4, 10, "accessor calls at looked-up positions")
+
+
+def block_size_is_a_bound(facts, res, R="C08.5.block-size-is-a-bound"):
+    """Any block size >= 1 is valid, however large ("one group per level" is commonly asked for with a huge value): the block size may
+    bound group sizes and be compared, but it may not size an allocation or enter a sum / product that can overflow.  In the tree's
+    constructor / rebuild and in the sorter's split, a RAW use of the block size (the constructor parameter, the member it initialises,
+    the split's group-size parameter - not a local clamped with std::min against a quantity of the data) is reported when it is an argument
+    of reserve / resize / an array new, or an operand of + or *."""
+    sites = []
+    fns = [(m, {"nbElementsPerBlock"}, set()) for m in facts.methods_of("TbfTree") if (m["kind"] == "CXXConstructor" or m["name"] == "rebuild") and tbf.body(m) is not None and not m.get("inst")]
+    sp = [m for m in facts.methods_of("TbfParticleSorter") if m["name"] == "splitInGroups" and tbf.body(m) is not None and not m.get("inst")]
+    if not fns or len(sp) != 1:
+        raise AnalysisBroken("TbfTree constructor / rebuild or TbfParticleSorter::splitInGroups not found")
+    fns.append((sp[0], set(), {sp[0]["params"][0]["did"]}))
+    n = 0
+    for m, members, params in fns:
+        body = tbf.body(m)
+        tbf.link_parents(body)
+        for p_ in m["params"]:
+            if re.search(r"ElementsPerBlock|GroupSize|BlockSize", p_.get("name") or ""):
+                params = params | {p_["did"]}
+
+        def raw(e):
+            for z in walk(e):
+                if z.get("k") == "DeclRefExpr" and z.get("did") in params:
+                    # inside std::min(raw, other)? then the value is clamped
+                    if not any(a.get("k") in ("CallExpr",) and tbf.callee_name(a) == "min" for a in tbf.ancestors(z)):
+                        return z
+                if z.get("k") in ("MemberExpr", "CXXDependentScopeMemberExpr") and z.get("name") in members and (not kids(z) or strip(kids(z)[0]).get("k") == "CXXThisExpr"):
+                    if not any(a.get("k") in ("CallExpr",) and tbf.callee_name(a) == "min" for a in tbf.ancestors(z)):
+                        return z
+            return None
+        for x in walk(body):
+            k = x.get("k")
+            if k in ("CallExpr", "CXXMemberCallExpr") and tbf.callee_name(x) in ("reserve", "resize") and tbf.call_args(x):
+                n += 1
+                r_ = raw(tbf.call_args(x)[0])
+                if r_ is not None:
+                    sites.append((m, x, "sizes the allocation `%s`" % facts.ntext(x)[:60]))
+            elif k == "CXXNewExpr" and x.get("array") and kids(x):
+                n += 1
+                if raw(kids(x)[0]) is not None:
+                    sites.append((m, x, "sizes the array allocation `%s`" % facts.ntext(x)[:60]))
+            elif k == "BinaryOperator" and x.get("op") in ("+", "*"):
+                sides = [strip(c_) for c_ in kids(x)]
+                direct = [c_ for c_ in sides if (c_.get("k") == "DeclRefExpr" and c_.get("did") in params) or (c_.get("k") in ("MemberExpr", "CXXDependentScopeMemberExpr") and c_.get("name") in members)]
+                if direct and raw(x) is not None:
+                    n += 1
+                    sites.append((m, x, "enters `%s`, which overflows for block sizes near the largest long" % facts.ntext(x)[:50]))
+    res.instance(R, "TbfTree / TbfParticleSorter", "src/core", "%d allocations / sums / products examined in the constructor, rebuild() and splitInGroups(); %d use the raw block size" % (n, len(sites)))
+    for m, x, what in sites:
+        res.violation(R, tbf.rel(facts.path_of(x)), m["qname"], "raw-block-size:%s@%d" % (m["name"], x["l"][1]), x["l"][1],
+                      "the requested block size %s: any block size >= 1 is valid (a huge one is the usual way to ask for one group per level) - the tree of a thousand particles then fails with bad_alloc / length_error or computes group counts from an overflowed sum" % what)
+    return n
 
 
 def block_size_positive(facts, res, R="C08.2.block-size-positive", only=None):
